@@ -112,7 +112,13 @@ class HGen:
             feats.add("assigned-lambda-over-several-lines")
             text = f"{name} = (\n    lambda {sig}: {body}\n    .tail{i}\n)\n"
         else:
-            text = f"def {name}({sig}):\n    tmp = {body}\n    return tmp\n"
+            # more than a single return: a second statement that is part of what calling the function does
+            text = r.choice([
+                f"def {name}({sig}):\n    tmp = {body}\n    return tmp\n",
+                f"def {name}({sig}):\n    assert {params[0]} is not None, 'precondition'\n    return {body}\n",
+                f"def {name}({sig}):\n    if {params[0]} is None:\n        raise ValueError('precondition')\n    return {body}\n",
+                f"def {name}({sig}):\n    'doc'\n    assert {params[0]} is not None\n    return {body}\n",
+            ])
         h = {"name": name, "params": params, "defaults": defaults, "body": body, "kind": kind, "leaf": leaf, "inlinable": kind != "multi", "feats": feats, "text": text}
         self.helpers.append(h)
         if leaf and kind == "multi":
@@ -144,7 +150,7 @@ class HGen:
         return f"{h['name']}({', '.join(args[:kpos] + [f'{p}={a}' for p, a in list(zip(h['params'], args))[kpos:]])})", False
 
 
-def gen_file(rnd):
+def gen_file(rnd, registry_history=True):
     g = HGen(rnd)
     leafs = [g.helper(i, True, []) for i in range(rnd.randint(2, 4))]
     # (a middle level: helpers calling leaf helpers, called by the top ones)
@@ -208,6 +214,14 @@ def gen_file(rnd):
         src += "    return locals()\n_ns = factory()\nglobals().update({k: v for k, v in _ns.items() if k.startswith(('case', 'py', 'h'))})\n"
     else:
         src += "HCUT0, HCUT1, HNAME = 30, -2.5, \"q'x\"\n"
+        if registry_history and rnd.random() < 0.4:
+            # history: ANOTHER function was registered for use in queries under the name one of the helpers carries (the registry
+            # goes by name; the helper defined below is not that function)
+            decoy = rnd.choice([h for h in tops if h["inlinable"]] or tops)["name"]
+            src += f"from func_adl import func_adl_callable as _reg\n@_reg()\ndef {decoy}(x: float) -> float: ...\n"
+            for c in cases:
+                if decoy + "(" in c["text"]:
+                    c["feats"] = sorted(set(c["feats"]) | {"helper-named-like-a-registered-function"})
         for h in leafs + tops:
             src += h["text"]
         # history: a function whose LOCAL helpers carry the names of module-level helpers (other bodies); queries built there run
@@ -239,7 +253,9 @@ def gen_file(rnd):
 
 
 def run_file(ctx, rnd):
-    src, cases, helpers = gen_file(rnd)
+    # (the registry of functions is one per process and goes by name: with several threads each loading a file of helpers h0, h1 ...
+    # a registration made by one file would be in force for the others, which no real program looks like)
+    src, cases, helpers = gen_file(rnd, registry_history=not ctx.threads)
     try:
         m = modgen.load(src, "c05")
     except SyntaxError as e:
@@ -306,6 +322,11 @@ def run_file(ctx, rnd):
         if len(ctx.samples) < 4 and nt and rnd.random() < 0.02:
             ctx.sample({"lambda": c["text"], "helpers": witness["helpers"][:3], "recorded": astx.unparse(lam)[:300]})
     modgen.unload(m)
+    # (registrations made by the generated file do not outlive it)
+    from func_adl import type_based_replacement as _tbr
+
+    for name in [n for n in list(_tbr._global_functions) if n[:1] == "h" and n[1:].isdigit()]:
+        _tbr._global_functions.pop(name, None)
 
 
 DIRECTED = modgen.DS_HEADER + '''
